@@ -48,6 +48,9 @@ CHECKS = {
  "C20": dict(technique="Coq proof (height = fold max of everything told; poll period) + real BlockWatcher on a paused clock",
    text="C20_max: the height equals the maximum of all heights told (startup, polls, notifications) for every event list; C20_never_decreases; C20_poll_period: the next getinfo is issued by the first tick reaching completion+60 s, not before, failed polls included; C20_catch_up: a successful poll carrying v makes the height >= v for ever. Correspondence: real BlockWatcher with stale/repeated/failing inputs and ticks at 59999+1 ms.",
    note="PARTIAL: RPC latency (the delta of the catch-up bound) and the real timer are runtime. No axioms.", design="6/C20"),
+ "C01": dict(technique="Coq proof: inductive invariant (every key held in a reply, a Succeeded write or the durable record was produced by the node for this hash) over ALL histories, generic in the key predicate + trace correspondence/monitor",
+   text="C01_key: for any predicate good on keys that the environment guarantees for completed parts, 'complete' pay answers and the state found at start (contract N1), every key in every resolve response of every history (any HTLCs, RPC faults, interleavings of lifecycles, crashes, unbounded length) is good; instances: sha key = the component's hash (for any function sha), and key is one of the keys the node itself reported for this hash (completed part / pay answer / durable record); C01_own_hash: an HTLC is handed to the component of its own payment hash because the attached invoice must be for that hash (D1 repair), so no invoice is paid on behalf of an HTLC with another hash. Correspondence: system traces with 25% of HTLCs carrying a hash different from their invoice's; the monitor checks real SHA-256 of every settled key against the HTLC's own hash.",
+   note="Trusted: Coq kernel; N1 (a part of hash H completes only with a preimage of H) is the hypothesis ev_good; SHA-256 and BOLT11 parsing are oracles; harness. No axioms.", design="6/C01"),
 }
 
 manifest = {
